@@ -49,7 +49,8 @@ CInit(sc) ==
       ceof   |-> [c \in 1..NC(sc) |-> FALSE],
       junk   |-> [c \in 1..NC(sc) |-> FALSE],
       fbad   |-> [c \in 1..NC(sc) |-> FALSE],
-      local  |-> [c \in 1..NC(sc) |-> ""] ]    \* the client's own socket address (C02)   \* a frame-order violation was already reported
+      local  |-> [c \in 1..NC(sc) |-> ""],
+      lastSend |-> 0 ]                          \* instant of the latest client write    \* the client's own socket address (C02)   \* a frame-order violation was already reported
                                                    \* on c: later frame guards would be echoes
 
 IsStop(x) == (x.cls \notin {"ok", "r505"}) \/ (x.cls = "ok" /\ x.last)
@@ -141,7 +142,12 @@ Fam(sc) == sc.prop
 \* events
 
 CSend(s, sc, e) ==
-    [s |-> [s EXCEPT !.sent[e.c + 1] = IF e.to > @ THEN e.to ELSE @], v |-> <<>>]
+    [s |-> [s EXCEPT !.sent[e.c + 1] = IF e.to > @ THEN e.to ELSE @, !.lastSend = e.now], v |-> <<>>]
+
+\* some complete request is still waiting to be handed to the application
+SomethingQueued(s, sc) ==
+    \E c \in 0..(NC(sc) - 1) : /\ s.fault[c + 1] \in {"none", "half"}
+                                /\ \E m \in 0..(NM(sc, c) - 1) : Deliverable(s, sc, c, m) /\ m \notin s.deliv[c + 1]
 
 CFault(s, sc, e, f) == [s |-> [s EXCEPT !.fault[e.c + 1] = f], v |-> <<>>]
 
